@@ -133,6 +133,26 @@ def without_weekday(d):
     return relativedelta(**kw)
 
 
+def spec_responses(ctx, pairs):
+    """the documented result of `x + relativedelta(**kw)` for each (kw, x): the Lean constructor model on the KEYWORDS
+    (rd.mk: carries proved to preserve the month and microsecond totals, C16.fix_preserves_total), then the Lean spec (rd.spec).
+    The implementation's own constructor is NOT consulted (a defect of its carries must not leak into the expectation);
+    only when the model cannot take the keywords (non-integer values) are the implementation's fields used."""
+    mk = ctx.driver(["rd.mk " + L.kw_wire(kw) if kw_is_int(kw) else "rd.ydayidx" for kw, _ in pairs])
+    reqs = []
+    for (kw, x), m in zip(pairs, mk):
+        if kw_is_int(kw) and m.startswith("ok ") and len(m.split()) == 19:
+            reqs.append("rd.spec %s %s" % (m[3:], L.t_wire(x)))
+        else:
+            reqs.append("rd.spec %s %s" % (L.rd_wire(L.mkrd(kw)), L.t_wire(x)))
+            ctx.count("spec_from_implementation_fields")
+    return ctx.driver(reqs)
+
+
+def kw_is_int(kw):
+    return all(isinstance(v, int) and not isinstance(v, bool) or k == "weekday" or v is None for k, v in kw.items())
+
+
 def check_pair(ctx, kw, x, spec_resp):
     """all clauses of the property for one (delta, operand); returns nothing, records violations"""
     d = L.mkrd(kw)
@@ -251,8 +271,24 @@ def oracle(ctx):
             for _ in range(3):
                 pairs.append((dict(extra, weekday=w), L.g_temporal(rng)))
                 ctx.count("int_weekday_cases")
-    reqs = ["rd.spec %s %s" % (L.rd_wire(L.mkrd(kw)), L.t_wire(x)) for kw, x in pairs]
-    spec = ctx.driver(reqs)
+    # un-normalised keyword deltas: years together with months beyond +-11, every lower field beyond its carry threshold, all
+    # signs, on every operand kind (the documented result is computed from the KEYWORDS, see spec_responses)
+    for _ in range(ctx.budget(4000, 50000)):
+        kw = {"years": rng.choice([1, -1, 2, -3, 5, rng.randint(-40, 40)]) or 1,
+              "months": rng.choice([12, -12, 13, -13, 23, 24, 25, -25, 36, rng.randint(12, 70), -rng.randint(12, 70)])}
+        for k, lo, hi in (("days", 0, 800), ("hours", 24, 200), ("minutes", 60, 5000), ("seconds", 60, 200000),
+                          ("microseconds", 10 ** 6, 5 * 10 ** 6), ("weeks", 0, 60)):
+            if rng.random() < 0.45:
+                kw[k] = rng.choice([1, -1]) * rng.randint(lo, hi)
+        if rng.random() < 0.3:
+            kw.update({k: v for k, v in L.g_kw(rng, "c03").items() if k in ("year", "month", "day", "weekday", "leapdays", "hour")})
+        try:
+            L.mkrd(kw)
+        except (ValueError, IndexError):
+            continue
+        pairs.append((kw, L.g_temporal(rng)))
+        ctx.count("unnormalised_keyword_deltas")
+    spec = spec_responses(ctx, pairs)
     for (kw, x), s in zip(pairs, spec):
         check_pair(ctx, kw, x, s)
     for kw, x in pairs[:4]:
@@ -513,7 +549,7 @@ def replay(ctx, payload):
     kw = L.kw_unjson(c["kw"])
     x = L.parse_t(c["x"].split())
     d = L.mkrd(kw)
-    s = ctx.driver(["rd.spec %s %s" % (L.rd_wire(d), L.t_wire(x))])[0]
+    s = spec_responses(ctx, [(kw, x)])[0]
     sub = L.vlib.Ctx(PROP, "quick", ctx.seed)
     check_pair(sub, kw, x, s)
     print("x=%s delta=%r impl=%s spec=%s" % (x, d, impl_add(x, d), s))
